@@ -9,12 +9,13 @@ Sites == {"literal", "shl", "shl-lhs", "shr", "div", "div-lhs", "mod", "mul", "a
           "align", "loop", "setpc", "seg-start", "seg-pc", "bank-size", "bank-fill", "byte", "branch",
           "seg-name", "bank-name", "useseg-name", "test-name", "nested-call", "macro-recursion", "macro-mutual",
           "shadow-segments", "interp-number", "text-number", "if-string",
-          "seg-redefine", "seg-redefine-moved", "bank-redefine"}       \* a definition repeated after code was emitted to it
+          "seg-redefine", "seg-redefine-moved", "bank-redefine",       \* a definition repeated after code was emitted to it
+          "seg-target-low", "seg-target-high", "loop-nested"}
 NumericSites == {"literal", "shl", "shl-lhs", "shr", "div", "div-lhs", "mod", "mul", "add", "sub", "neg",
-                 "align", "loop", "setpc", "seg-start", "seg-pc", "bank-size", "bank-fill", "byte", "branch"}
-(* argument classes (rendered by the harness): zero, minus one, one, 63, 64, 65, 2^31, 2^63-1, -2^63 (as 0 - 2^63-1 - 1),
+                 "align", "loop", "setpc", "seg-start", "seg-pc", "bank-size", "bank-fill", "byte", "branch", "loop-nested"}
+(* argument classes (rendered by the harness): zero, minus one, one, 63, 64, 65, 2^16 (the size of the address space), 2^31, 2^63-1, -2^63 (as 0 - 2^63-1 - 1),
    a literal wider than 64 bits in each radix *)
-Args == {"0", "-1", "1", "63", "64", "65", "2^31", "2^63-1", "-2^63", "wide-dec", "wide-hex", "wide-bin"}
+Args == {"0", "-1", "1", "63", "64", "65", "2^16", "2^31", "2^63-1", "-2^63", "wide-dec", "wide-hex", "wide-bin"}
 Contexts == {"top", "macro-uninvoked", "macro-invoked", "if-untaken", "if-taken", "loop", "scope"}
 
 Cases == {[site |-> s, arg |-> a, ctx |-> c] : s \in NumericSites, a \in Args, c \in Contexts}
@@ -25,6 +26,7 @@ Ideal(c) ==
   CASE c.site \in {"seg-name", "bank-name", "useseg-name"} -> "diagnostic"      \* a name containing '.' (a test name may be a path)
     [] c.site \in {"nested-call"} -> "value"
     [] c.site \in {"macro-recursion", "macro-mutual"} -> "diagnostic"
+    [] c.site \in {"seg-target-low", "seg-target-high"} -> "diagnostic"          \* code of a relocated segment outside $0000-$FFFF on its target side
     [] c.site = "align" /\ c.arg \in {"0", "-1", "-2^63"} -> "diagnostic"
     [] c.site \in {"div", "mod"} /\ c.arg = "0" -> "value-or-diagnostic"
     [] c.arg \in {"wide-dec", "wide-hex", "wide-bin"} -> "diagnostic"
